@@ -701,6 +701,16 @@ def run_one(prop, run_seed, run_index, cfg):
                         tag='tstep')
         if k == 'reset':
             steps.append({'op': 'reset'})
+        elif k == 'manual' and ch.chance(0.35):
+            # the lens is left perturbed by hand and a run is started without
+            # a reset in between (every trial resets first, so the run must
+            # not see the hand-applied values)
+            steps.append({'op': 'apply'})
+            if mode == 'sens' and ch.chance(0.6):
+                steps.append({'op': 'sens', 'seed': ch.seed32()})
+            else:
+                steps.append({'op': 'mc', 'n': ch.randint(1, 3),
+                              'seed': ch.seed32()})
         elif k == 'manual':
             # perturb and compensate by hand, possibly more than once, then
             # reset
